@@ -41,7 +41,7 @@ def _agg_common(L, i, hits, count, prev):
         ('current_run_uniform', forall(t, z3.Implies(z3.And(covered <= t, t <= i), hits[t] == prev), [hits[t]])),
         ('ghost_sync', z3.And(rc.len == r, rh.len == r, rs.len == r)),
         ('runs_uniform', forall([k, t], z3.Implies(z3.And(rng(0, k, r), rs[k] <= t, t < rs[k] + rc[k]), hits[t] == rh[k]),
-                                [z3.MultiPattern(rh[k], hits[t])])),
+                                [MP(rh[k], hits[t])])),
         ('runs_nonempty', forall(k, z3.Implies(rng(0, k, r), z3.And(rc[k] >= 1, rs[k] >= 0)), [rc[k]])),
         ('runs_tile', z3.And(z3.Implies(r > 0, rs[0] == 0),
                              forall(k, z3.Implies(z3.And(0 <= k, k + 1 < r), z3.And(rs[k + 1] == rs[k] + rc[k], rh[k] != rh[k + 1])),
@@ -83,7 +83,7 @@ def _agg_ensures(C, res):
             z3.Implies(r > 0, z3.And(rs[0] == 0, rs[r - 1] + rc[r - 1] == hits.len)),
             forall(k, z3.Implies(z3.And(0 <= k, k + 1 < r), rs[k + 1] == rs[k] + rc[k]), [rs[k + 1]]),
             forall([k, t], z3.Implies(z3.And(rng(0, k, r), rs[k] <= t, t < rs[k] + rc[k]), hits[t] == rh[k]),
-                   [z3.MultiPattern(rh[k], hits[t])]),
+                   [MP(rh[k], hits[t])]),
             forall(k, z3.Implies(rng(0, k, r), rc[k] >= 1), [rc[k]]))),
         ('adjacent_runs_differ', forall(k, z3.Implies(z3.And(0 <= k, k + 1 < r), rh[k] != rh[k + 1]), [rh[k + 1]])),
         ('run_texts', forall(k, z3.Implies(rng(0, k, r), res.raw(k).t == HS(rc[k], rh[k])), [res.raw(k).t])),
@@ -123,7 +123,7 @@ def valid_matching(P, d):
     I, J = z3.Int('I'), z3.Int('J')
     inr = z3.And(A.lo <= I, I < J, J < A.hi)
     ti, tj = A.raw(I).t, A.raw(J).t
-    pat = [z3.MultiPattern(ti, tj)]
+    pat = [MP(ti, tj)]
     return [('reference_strictly_ascending', forall([I, J], z3.Implies(inr, A[I].reference.siteId < A[J].reference.siteId), pat)),
             ('query_strictly_monotone', forall([I, J], z3.Implies(inr, z3.If(d == 1, A[J].query.siteId - A[I].query.siteId,
                                                                              A[I].query.siteId - A[J].query.siteId) >= J - I), pat))]
